@@ -1,0 +1,4 @@
+// Package verifhooks re-exports internals of oras-go for the external
+// verification harness. Every other file of this package is guarded by the
+// build tag "verif"; without the tag the package is empty.
+package verifhooks
